@@ -412,6 +412,14 @@ known("KF-C19-04", "C19", PJ, None, r"projection-mismatch", r"direct:[A-Za-z]+>[
       'query [P] on QOuter (P promoted from the embedded QLeaf) selects nothing', "internal/encoder/code.go StructCode.Filter matches the keys of the struct's own fields; promoted fields live in a nested anonymous StructCode",
       "other missing promoted members", "Filter would have to descend into anonymous fields")
 
+# ------------------------------------------------------------------ C20
+known("KF-C20-01", "C20", "path-select", r"(Extract|Path\.Unmarshal)", r"(selection-mismatch:.+|unmarshal-differs-from-extract)", r"recursive-descent",
+      '$..b on {"a":{"b":1},"b":2} does not return [1 2]: recursive descent follows only some members and returns scalars only', "internal/decoder/path.go PathRecursiveNode + the DecodePath methods of map/slice decoders",
+      "any other mis-selection on paths that contain a recursive-descent step", "needs a real descent in every DecodePath implementation")
+known("KF-C20-02", "C20", "path-select", r"Extract", r"selection-mismatch:scalar-returned-for-selector", r"(child-only|index|wildcard|multi-wildcard)",
+      '$.x.id on 1 returns ["1"]; $[*].k on [{"k":null},7] returns [null 7]; on a string the unquoted contents are returned', "internal/decoder/*.go DecodePath of the scalar decoders return the scalar itself whatever selectors remain",
+      "nothing else (the predicate reproduces go-json's parts exactly)", "scalar decoders would have to report 'not found'")
+
 json.dump({"comment": "generated by tools/gen_known.py; never written at check time", "findings": F},
           open(os.path.join(os.path.dirname(os.path.abspath(__file__)), "..", "known_findings.json"), "w"), indent=1, ensure_ascii=False)
 print(len(F), "entries")
